@@ -61,7 +61,7 @@ def decode_set_state(b: bytes) -> dict:
         t2=2 * ti + ((b[2] >> 4) & 1), mode=b[2] >> 5, fan=b[3] & 0x7F, swing=b[7] & 0x0F,
         follow=bool(b[8] & 0x80), turbo=bool(b[8] & 0x20) or bool(b[10] & 0x02),
         eco=bool(b[9] & 0x80), purifier=bool(b[9] & 0x20),
-        aux=2 if b[22] & 0x08 else (1 if b[9] & 0x08 else 0),
+        ptc=bool(b[9] & 0x08), iptc=bool(b[22] & 0x08),
         sleep=bool(b[10] & 0x01), fahr=bool(b[10] & 0x04), hum=b[19] & 0x7F, freeze=bool(b[21] & 0x80))
 
 
@@ -181,6 +181,9 @@ class ACModel:
             beep = new.pop("beep")
             if beep:
                 self.beeps += 1
+            ptc, iptc = new.pop("ptc"), new.pop("iptc")
+            new["aux"] = 2 if iptc else (1 if ptc else 0)
+            new["aux_both"] = bool(ptc and iptc)
             self.state.update(new)
             return [resp_frame(2, encode_state(self.state, self.state_len), self.style)]
         if t == 2 and b[0] == 0xB0:
